@@ -176,13 +176,26 @@ Print Assumptions C12_repeated_keys_refuted.
    largest *)
 Theorem C12_pushdown_refuted :
   exists rows ks out,
-    d12 ks rows = true /\ exec_order_limit_with (@go_isort row) true (Some ks) (Some 1) rows = Ok out /\
+    d12 ks rows = true /\
+    exec_order_limit_with (@go_isort row) (Some [true; true; true]) (Some ks) (Some 1) rows = Ok out /\
     order_limit_with (@go_isort row) (Some ks) (Some 1) rows <> Ok out.
 Proof.
   exists (one_col [CL (int_lit 1); CL (int_lit 2); CL (int_lit 3)]), [mkKey 1%N true]. eexists.
   split; [vm_compute; reflexivity|]. split; [vm_compute; reflexivity|]. vm_compute. discriminate.
 Qed.
 Print Assumptions C12_pushdown_refuted.
+
+(* ... and with a clause that drops triples ({?s "t"@[?t] ?o} over a graph that also holds other predicates) LIMIT n
+   without ORDER BY returns FEWER than min(n, N) rows: here 1 instead of 2 *)
+Theorem C12_pushdown_count_refuted :
+  exists (rows out : list row) mask,
+    List.length rows = 2%nat /\ count_true mask = 2%nat /\
+    exec_order_limit_with (@go_isort row) (Some mask) None (Some 2) rows = Ok out /\ List.length out = 1%nat.
+Proof.
+  exists (one_col [CL (int_lit 1); CL (int_lit 2)]). eexists. exists [true; false; true].
+  split; [reflexivity|]. split; [reflexivity|]. split; vm_compute; reflexivity.
+Qed.
+Print Assumptions C12_pushdown_count_refuted.
 
 (* negative LIMIT: Table.Limit panics (make with a negative length); reachable from a statement before the repair
    (limit_collection false accepts the token) *)
